@@ -22,7 +22,9 @@ ObsCol(t, e, k) == IF IsRgb(t) THEN <<e.c1[k], e.c2[k], e.c3[k]>> ELSE <<e.c1[k]
 
 RowFails(e) ==
   LET t  == Types[e.ty]
-      nb == StorageBytes(t)
+      \* to_be_bytes / to_le_bytes: one byte up to 8 bits per pixel, BITS_PER_PIXEL / 8 bytes above
+      \* (3 bytes for 24-bit raws); BITS_PER_PIXEL as the library reports it
+      nb == IF e.bits <= 8 THEN 1 ELSE e.bits \div 8
       Arg(k, ch) == IF ch = e.ch THEN e.a0 + k - 1 ELSE e.fix[ch]
       \* new() keeps each channel modulo its width and the accessors return it
       ChanOK(k)   == \A ch \in 1..NChan(t) : ObsCol(t, e, k)[ch] = NewCh(t, ch, Arg(k, ch))
@@ -36,8 +38,7 @@ RowFails(e) ==
       AllOK(k)    == ChanOK(k) /\ LayoutOK(k) /\ FitsOK(k) /\ StoOK(k) /\ BeOK(k) /\ LeOK(k) /\ BackOK(k)
       K == 1..e.n
   IN
-  IF e.bits # t.raw THEN [codes |-> {"bits_per_pixel"}, k |-> 0]
-  ELSE IF Len(e.be) # e.n * nb \/ Len(e.le) # e.n * nb THEN [codes |-> {"bytes_len"}, k |-> 0]
+  IF Len(e.be) # e.n * nb \/ Len(e.le) # e.n * nb THEN [codes |-> {"bytes_len"}, k |-> 0]
   ELSE IF \A k \in K : AllOK(k) THEN [codes |-> {}, k |-> 0]
   ELSE [codes |-> (IF \A k \in K : ChanOK(k)   THEN {} ELSE {"channel_value"})
              \cup (IF \A k \in K : LayoutOK(k) THEN {} ELSE {"layout"})
